@@ -309,16 +309,26 @@ func runC01(c *fw.Ctx) {
 	// (c) comment mutations
 	mfiles := corpus.Sample(c.Rand("mut-files"), c.Pick(250, 3000))
 	kindsets := [][]string{{"block"}, {"eol", "own"}, {"blank", "own", "ownblk"}, {"block", "eol", "own", "blank", "ownblk", "mlblk"}, {"hang"}, {"hang", "blank", "eol"}}
+	for _, k := range znames {
+		mfiles = append(mfiles, "zoo:"+k)
+	}
 	for i, p := range mfiles {
 		if !c.Mine(i) {
 			continue
 		}
-		src := readFile(p)
+		var src []byte
+		nrec := c.Pick(2, 3)
+		if strings.HasPrefix(p, "zoo:") {
+			src = []byte(zoo[strings.TrimPrefix(p, "zoo:")])
+			nrec = c.Pick(8, 40)
+		} else {
+			src = readFile(p)
+		}
 		if src == nil || len(src) > 60000 || !corpus.Canonical(src) {
 			continue
 		}
 		for ks, kinds := range kindsets {
-			for rec := 0; rec < c.Pick(2, 3); rec++ {
+			for rec := 0; rec < nrec; rec++ {
 				mr := c.Rand(fmt.Sprintf("mut/%s/%d/%d", p, ks, rec))
 				edits := gen.CommentEdits(mr, src, 1+mr.Intn(12), kinds, 1000)
 				if len(edits) == 0 {
